@@ -25,13 +25,13 @@ RULE = (
     "t_max longer, checkpointed} of length <=2 (quick) / <=3 (thorough); state = (model, canonical module snapshot hash, "
     "history); distinct = distinct (model, call/configuration) result digests"
 )
-REQUIRED_COVER = ["prod_gt_steps", "depth3_nesting", "externals_unequal_width", "batch_size_1", "jit", "vmap_params", "vmap_stimuli",
+REQUIRED_COVER = ["non_default_delta_t", "prod_gt_steps", "depth3_nesting", "externals_unequal_width", "batch_size_1", "jit", "vmap_params", "vmap_stimuli",
                   "jit_vmap", "repeat_bit_identical", "history_depth2", "tmax_longer_pads", "tmax_shorter_truncates"]
 ASSUMPTIONS = [
     "eager CPU execution is deterministic (single XLA thread per worker), so bit-identity of repeated calls is decidable",
-    "tolerance 1e-10 relative for mode/checkpoint equivalence",
+    "tolerance 1e-8 relative for mode/checkpoint equivalence (round-off amplified through spikes); repeated identical calls must be bit-identical",
 ]
-TOL = 1e-10
+TOL = 1e-8  # jit / vmap / checkpointed programs are fused differently; round-off (1e-16) can be amplified by ~1e6 through a spike
 T = 5  # stored input length (steps)
 DT = 0.025
 
@@ -113,13 +113,16 @@ def _viol(out, rule, model, detail, witness, msg):
 
 
 # ---------------------------------------------------------------- (1) checkpoint tuples
-def ckpt_item(name, steps, tuples):
+def ckpt_item(name, steps, tuples, dt=DT):
     import jax.numpy as jnp
     import jaxley as jx
 
     out = {"violations": [], "cover": [], "refusals": [], "digests": [], "evals": 0}
     m = _setup(name)
-    kw = {} if steps == T else {"t_max": (steps - 1) * DT + DT / 2}
+    kw = {} if steps == T else {"t_max": (steps - 1) * dt + dt / 2}
+    if dt != DT:
+        kw["delta_t"] = dt  # non-default time step (the default one is passed implicitly)
+        out["cover"].append("non_default_delta_t")
     plain = np.asarray(jx.integrate(m, **kw))
     if plain.shape[1] != steps + 1:
         _viol(out, "tmax_steps", name, {}, {"part": "ckpt", "model": name, "steps": steps, "tuple": None}, f"shape {plain.shape} for {steps} steps")
@@ -129,7 +132,7 @@ def ckpt_item(name, steps, tuples):
     for tup in tuples:
         out["evals"] += 1
         prod = int(np.prod(tup))
-        wit = {"part": "ckpt", "model": name, "steps": steps, "tuple": list(tup)}
+        wit = {"part": "ckpt", "model": name, "steps": steps, "tuple": list(tup), "dt": dt}
         try:
             r = np.asarray(jx.integrate(m, checkpoint_lengths=list(tup), **kw))
         except Exception as e:
@@ -137,7 +140,7 @@ def ckpt_item(name, steps, tuples):
             continue
         err = _rel(r, plain)
         if err > TOL:
-            _viol(out, "checkpoint_recordings", name, {"prod_gt_steps": prod > steps, "depth": len(tup)}, wit, f"differs from plain by {err}")
+            _viol(out, "checkpoint_recordings", name, {"prod_gt_steps": prod > steps, "depth": len(tup), "default_dt": dt == DT}, wit, f"differs from plain by {err}")
         out["digests"].append(digest([name, steps, list(tup)]))
         if prod > steps:
             out["cover"].append("prod_gt_steps")
@@ -276,7 +279,7 @@ def history_item(name, prefix, depth):
 
 def work(item):
     if item["part"] == "ckpt":
-        return ckpt_item(item["model"], item["steps"], [tuple(t) for t in item["tuples"]])
+        return ckpt_item(item["model"], item["steps"], [tuple(t) for t in item["tuples"]], item.get("dt", DT))
     if item["part"] == "modes":
         return modes_item(item["model"])
     return history_item(item["model"], item["prefix"], item["depth"])
@@ -294,7 +297,8 @@ def explore(ctx):
             ntup += len(tups)
             ch = 12
             for i in range(0, len(tups), ch):
-                items.append({"part": "ckpt", "model": name, "steps": steps, "tuples": [list(t) for t in tups[i:i + ch]]})
+                items.append({"part": "ckpt", "model": name, "steps": steps, "tuples": [list(t) for t in tups[i:i + ch]],
+                              "dt": {2: 0.05, 3: 0.0125}.get(steps, DT)})
         items.append({"part": "modes", "model": name})
     depth = 2 if quick else 3
     for name in "ABC":
@@ -311,7 +315,7 @@ def explore(ctx):
 
 def replay(w):
     if w["part"] == "ckpt":
-        return ckpt_item(w["model"], w["steps"], [tuple(w["tuple"])] if w.get("tuple") else [])["violations"]
+        return ckpt_item(w["model"], w["steps"], [tuple(w["tuple"])] if w.get("tuple") else [], w.get("dt", DT))["violations"]
     if w["part"] == "modes":
         return modes_item(w["model"])["violations"]
     h = w["history"]
